@@ -232,7 +232,28 @@ func (p *LeafPool) Confuse(t *rapid.T, pool []model.Expr, o ExprOpts) model.Expr
 		// inside, an operand that is always true (AND) or never true (OR)
 		a, b := e, pick("mb")
 		never := model.Eq(firstCol(p), "\x01never\x02")
-		switch rapid.IntRange(0, 4).Draw(t, "metakind") {
+		switch rapid.IntRange(0, 7).Draw(t, "metakind") {
+		case 5, 6:
+			// two sibling operands that are the same node with its operands in
+			// another order (equal under any order-independent key)
+			if (a.Op == model.OpAnd || a.Op == model.OpOr) && len(a.Subs) > 1 {
+				rev := make([]model.Expr, len(a.Subs))
+				for i := range a.Subs {
+					rev[len(a.Subs)-1-i] = a.Subs[i]
+				}
+				twin := model.Expr{Op: a.Op, Subs: rev}
+				if rapid.Bool().Draw(t, "sibop") {
+					return model.Or(a, twin)
+				}
+				return model.And(a, twin, b)
+			}
+			return model.Or(model.And(a, b), model.And(b, a))
+		case 7:
+			// a value list on one column with a value repeated, not next to itself
+			if vl, ok := p.valueList(t); ok {
+				return vl
+			}
+			return model.Or(a, b, a)
 		case 0:
 			return model.Not(model.Or(model.Not(a), model.Not(b))) // = a AND b
 		case 1:
@@ -348,6 +369,22 @@ func (p *LeafPool) ErrorPrecedence(t *rapid.T) []model.Expr {
 		out = append(out, forms[(start+i*3)%len(forms)])
 	}
 	return out
+}
+
+// valueList: OR(c=v1, c=v2, c=v1 [, c=v3 ...]) over the values of one column.
+func (p *LeafPool) valueList(t *rapid.T) (model.Expr, bool) {
+	if len(p.Cols) == 0 {
+		return model.Expr{}, false
+	}
+	c := p.Cols[rapid.IntRange(0, len(p.Cols)-1).Draw(t, "vlc")]
+	vals := p.D.Values(c)
+	pickv := func(l string) model.Expr { return model.Eq(c, vals[rapid.IntRange(0, len(vals)-1).Draw(t, l)]) }
+	x, y := pickv("vlx"), pickv("vly")
+	subs := []model.Expr{x, y, x}
+	for i, n := 0, rapid.IntRange(0, 3).Draw(t, "vlmore"); i < n; i++ {
+		subs = append(subs, pickv("vlz"))
+	}
+	return model.Or(subs...), true
 }
 
 func firstCol(p *LeafPool) string {
